@@ -176,6 +176,25 @@ def run(rep, tier, seed):
             if err:
                 rep.violations.append({'key': 'roundtrip', 'kind': 'expr', 'table': FT, 'tree': enc_expr(x), '_at': len(rep.trail) - 1,
                                        'text': str(x), 'what': '%s result: %s' % (name, err)})
+    # unknown licenses made of the words of a known multi-word name with foreign words in between (no stored name occurs among
+    # their words): as operands of hand-built, deduplicated and combined expressions they render and parse back
+    IT = [('GPL 2.0', ['GNU Lesser 2.1 plus'], False), ('mit', [], False), ('cp', ['classpath exception 2.0'], True)]
+    Li = make_licensing(IT)
+    def P(k, e=0):
+        return [0, [0, [enc_str(k), e]]]
+    for unk in ('GPL foo 2.0', 'GNU Lesser 2.1 only plus', 'GNU foo Lesser 2.1 plus', 'GPL zz yy 2.0', 'classpath my exception 2.0', 'GNU Lesser'):
+        for src in (P(unk), [1, [P(unk), P('mit')]], [2, [[0, [1, [enc_str(unk), 0], [enc_str('cp'), 1]]], P('mit')]],
+                    [1, [P('mit'), [2, [P(unk), P('GPL 2.0'), P(unk)]]]]):
+            for producer in ('parse', 'dedup', 'simplify'):
+                recipe = {'producer': producer, 'source': src}
+                x = produce(Li, recipe, le)
+                err = check_expr(Li, x, le)
+                rep.trail.append({'table': IT, 'tree': enc_expr(x)})
+                rep.case((repr(IT), str(x), producer), nontrivial=True, sample=None)
+                rep.count('interrupted_name_unknowns')
+                if err:
+                    rep.violations.append({'key': 'roundtrip', 'kind': 'expr', 'table': IT, 'tree': enc_expr(x), '_at': len(rep.trail) - 1,
+                                           'recipe': recipe, 'text': str(x), 'what': '%s result: %s' % (producer, err)})
     res = run_model(model_reqs)
     for x, r in zip(model_meta, res):
         got = [enc_str(str(x)), enc_str(x.render_as_readable())]
